@@ -211,6 +211,44 @@ class SymContext(object):
         """wrap a Python function of the contract as a callable for the interpreted code"""
         return self._I.Builtin('contract-lambda', lambda ip, a, k: pyfunc(*a, **k))
 
+    # ---- assumed dependency models supplied by the contract
+    def roots_model(self, fn):
+        """numpy.roots(p) returns fn(p): an arbitrary list chosen by the contract (assumed
+        contract of numpy.roots: *some* list, in *some* order)"""
+        from . import models
+        self.ip.np_roots_model = self._I.Builtin('numpy.roots(model)', lambda ip, a, k: models.CoefArr(list(fn(a[0]))))
+
+    def merge_ifs(self, mode=True):
+        """if-merging into guarded list elements (DESIGN.md 1.4); 'if-only' merges statements
+        but forks on comprehension filters"""
+        self.ip.merge = mode
+
+    def present(self, res, F, i):
+        """the element at position i of F occurs exactly once in the result list"""
+        I = self._I
+        sym = self._sym
+        if len(res) == len(F) and all((x.value if isinstance(x, I.Guarded) else x) is F[k] for k, x in enumerate(res)):
+            x = res[i]
+            return x.guard if isinstance(x, I.Guarded) else True
+        n = 0
+        for x in res:
+            if isinstance(x, I.Guarded):
+                n = sym.add(n, sym.If(sym.And(x.guard, sym.eq(x.value, F[i])), 1, 0))
+            else:
+                n = sym.add(n, sym.If(sym.eq(x, F[i]), 1, 0))
+        return sym.eq(n, 1)
+
+    def sublist_of(self, res, F):
+        """every element of the result is (==) some element of F"""
+        I = self._I
+        sym = self._sym
+        out = []
+        for x in res:
+            v = x.value if isinstance(x, I.Guarded) else x
+            g = x.guard if isinstance(x, I.Guarded) else True
+            out.append(sym.Implies(g, sym.Or(*[(v is f) or sym.eq(v, f) for f in F])))
+        return sym.And(*out)
+
 
 # ====================================================================== concrete context
 
@@ -348,3 +386,24 @@ class ConcContext(object):
 
     def lam(self, pyfunc):
         return pyfunc
+
+    def roots_model(self, fn):
+        import numpy as np
+        import svgpathtools.polytools as pt
+
+        class Shim(object):
+            def __getattr__(self_, name):
+                return getattr(np, name)
+
+            def roots(self_, p):
+                return np.array(list(fn(p)))
+        pt.np = Shim()
+
+    def merge_ifs(self, mode=True):
+        pass
+
+    def present(self, res, F, i):
+        return sum(1 for x in res if x == F[i]) == 1
+
+    def sublist_of(self, res, F):
+        return all(any(x == f for f in F) for x in res)
